@@ -16,16 +16,16 @@ func c02Random(seed uint64, i int, ntexts int) *c01Case {
 	rng := gen.Derive(seed, "C02", i)
 	sc := gen.DefaultScope
 	sc.CapHeavy = true
-	sc.Globals = i%4 == 0
+	sc.Globals = rng.Chance(1, 4)
 	sc.GlobalCaps = true
 	sc.Preds = false
-	sc.WordAnch = i%3 == 0
-	if i%2 == 0 {
+	sc.WordAnch = rng.Chance(1, 3)
+	if rng.Bool() {
 		sc.Alpha = "abc"
 	}
 	pg := gen.NewPG(rng, sc)
 	p := pg.FindProgram()
-	if i%3 == 1 {
+	if rng.Chance(1, 3) {
 		// named loops: bindings made inside go to the loop's per-iteration maps
 		n := 0
 		p.Commands[0].Body = gen.NameLoops(rng, p.Commands[0].Body, &n)
